@@ -430,6 +430,9 @@ pub fn type_strategy() -> BoxedStrategy<RT> {
             proptest::collection::vec(inner, 1..=3).prop_map(RT::Tup),
         ]
     });
+    // Result whose two sides are both containers with a borrowed part, and Vec of such containers
+    let deep_res = (shallow_core(), shallow_core()).prop_map(|(t, e)| RT::Res(Box::new(t), Box::new(e)));
+    let vec_core = shallow_core().prop_map(|c| RT::Vec(Box::new(c)));
     prop_oneof![
         2 => borrowed_leaf(),
         3 => shallow_core(),
@@ -437,6 +440,8 @@ pub fn type_strategy() -> BoxedStrategy<RT> {
         2 => wrap2,
         1 => vec_ref,
         1 => vec_opt,
+        2 => deep_res,
+        1 => vec_core,
         4 => tuple,
         3 => owned,
     ]
